@@ -440,6 +440,23 @@ func engineOracles(c *Ctx, ec *eCase, recs []reqRec) {
 				}
 			}
 		}
+		// ---- C02: on every page but the first of a node that declares MPREV, the previous entry is offered
+		if r.x == "ok" && r.f == "ok" && r.cont && r.idx > 0 && len(r.path) > 0 && ec.wf && ec.out > 0 {
+			if is, halted := nodeInstrs(ec.nodes[r.path[len(r.path)-1]]); halted {
+				for _, gi := range is {
+					if gi.Op != "MPREV" {
+						continue
+					}
+					sep := ec.sep
+					if sep == "" {
+						sep = ":"
+					}
+					if !strings.Contains("\n"+string(r.out), "\n"+gi.B+sep) {
+						c.Fail("C02", "previous-not-offered", fmt.Sprintf("%s: page %d of %v does not offer the previous entry %q declared by MPREV: %q", where, r.idx, r.path, gi.B, trunc(string(r.out), 120)))
+					}
+				}
+			}
+		}
 		// ---- C05: scope lifetime and size limits, from the stored cache
 		if r.state != "nostate" && r.x != "panic" && ec.wf && !hasCroak && r.cont {
 			if len(r.caSnap.frames) > len(r.path)+1 {
